@@ -48,6 +48,8 @@ def check_partition(ctx, rid, unit, qn, f, data="X", site_prefix=""):
     loops = find_partition_loop(f)
     site = f"{qn}: partition idiom"
     if len(loops) != 1:
+        if check_range_partition(ctx, rid, unit, qn, f, data, site):
+            return None
         ctx.undecided_site(rid, site, f"{len(loops)} candidate batching loops")
         return None
     L = loops[0]
@@ -123,6 +125,56 @@ def check_partition(ctx, rid, unit, qn, f, data="X", site_prefix=""):
         return None
     ctx.ok(rid, site, f"counter {j} from 0, test {norm_src(t)}, slices {[norm_src(s) for s in slices]}, step {norm_src(step)}")
     return {"loop": w, "cfg": cfg, "counter": j, "slices": slices, "step": step, "bnames": bnames}
+
+
+def check_range_partition(ctx, rid, unit, qn, f, data, site):
+    """alternative idiom: for b in range(nb): idx[b*s:(b+1)*s]. The blocks cover all len(data) items iff nb*s >= len(data),
+    i.e. nb is the ceiling of len/s. Returns True when the idiom was recognised and judged."""
+    from ..match import resolve_expr
+    cfg = CFG(f)
+    for lp in [n for n in cfg.nodes if isinstance(n, ast.For)]:
+        if not (isinstance(lp.iter, ast.Call) and call_name(lp.iter) == "range" and len(lp.iter.args) == 1 and isinstance(lp.target, ast.Name)):
+            continue
+        b = lp.target.id
+        sls = [n for n in ast.walk(lp) if isinstance(n, ast.Slice) and n.lower is not None and n.upper is not None and n.step is None
+               and any(isinstance(x, ast.Name) and x.id == b for x in ast.walk(n.lower))]
+        if not sls:
+            continue
+        sl = sls[0]
+        try:
+            lo, hi = to_rat(sl.lower), to_rat(sl.upper)
+            width = hi - lo
+            bvar = to_rat(ast.parse(b, mode="eval").body)
+            if not lo.equals(bvar * width):
+                continue
+        except NotScalarArithmetic:
+            continue
+        nb = resolve_expr(cfg, lp, lp.iter.args[0])
+        wsrc = None
+        for n in ast.walk(sl.upper):
+            pass
+        # width as source text: the factor multiplying b in the lower bound
+        wtxt = norm_src(sl.lower).replace(f"{b} * ", "").replace(f" * {b}", "")
+        L = f"len({data})"
+        floor_forms = [f"{L} // {wtxt}", f"int({L} / {wtxt})", f"{data}.shape[0] // {wtxt}"]
+        ceil_forms = [f"-(-{L} // {wtxt})", f"({L} + {wtxt} - 1) // {wtxt}", f"math.ceil({L} / {wtxt})", f"int(np.ceil({L} / {wtxt}))", f"int(math.ceil({L} / {wtxt}))"]
+        nbs = norm_src(nb)
+        from ..match import canon_equal
+        if any(nbs == x or _same(nbs, x) for x in ceil_forms):
+            ctx.ok(rid, site, f"for {b} in range(ceil(len/{wtxt})): blocks [{norm_src(sl.lower)}:{norm_src(sl.upper)}]")
+            return True
+        if any(nbs == x or _same(nbs, x) for x in floor_forms) or "//" in nbs:
+            ctx.violation(rid, unit.relpath, qn, f"for {b} in range({nbs})", f"the batches are the blocks [{norm_src(sl.lower)}:{norm_src(sl.upper)}] for {b} < {nbs}: "
+                          f"with floor division the last partial block (len % {wtxt} samples) is never produced, so the batches do not cover the data", line=lp.lineno, site=site)
+            return True
+    return False
+
+
+def _same(a, b):
+    try:
+        return norm_src(ast.parse(a, mode="eval").body) == norm_src(ast.parse(b, mode="eval").body)
+    except SyntaxError:
+        return False
 
 
 def run(pm, ctx):
@@ -234,6 +286,29 @@ def run(pm, ctx):
     ff = bu.func("DiscriminativeModel.fit")
     outer = [n for n in ast.walk(ff) if isinstance(n, ast.For) and norm_src(n.iter) == "range(self.max_iter)"]
     inner = [n for n in ast.walk(ff) if isinstance(n, ast.For) and (call_name(n.iter) or "") == "self._batchify"]
+    # single source of batches: every loop that performs training steps must draw its batches from self._batchify(...)
+    # (the hook that nonparametric models override and that constraint decoration wraps) on every path
+    cfg_fit = CFG(ff)
+    step_loops = [n for n in ast.walk(ff) if isinstance(n, ast.For) and any(isinstance(c, ast.Call) and (call_name(c) or "").endswith("._update_weights") for c in ast.walk(n))
+                  and not any(isinstance(m, ast.For) and m is not n and any(isinstance(c, ast.Call) and (call_name(c) or "").endswith("._update_weights") for c in ast.walk(m)) for m in ast.walk(n))]
+    for lp in step_loops:
+        site_s = "DiscriminativeModel.fit: source of the batches"
+        it = lp.iter
+        if isinstance(it, ast.Call) and call_name(it) == "self._batchify":
+            ctx.ok("C10-c", site_s, "for ... in self._batchify(...)")
+        elif isinstance(it, ast.Name):
+            ds = [d for d in cfg_fit.reaching()[lp].get(it.id, ())]
+            bad = [d for d in ds if not (d is not ENTRY and isinstance(d, ast.Assign) and isinstance(d.value, ast.Call) and call_name(d.value) == "self._batchify")]
+            if ds and not bad:
+                ctx.ok("C10-c", site_s, f"{it.id} is self._batchify(...) on every path")
+                inner = inner or [lp]
+            else:
+                b0 = bad[0] if bad and bad[0] is not ENTRY else lp
+                ctx.violation("C10-c", bu.relpath, "DiscriminativeModel.fit", norm_src(b0)[:160], f"on some path the batches are `{norm_src(b0.value) if isinstance(b0, ast.Assign) else it.id}` "
+                              f"instead of self._batchify(...): the override of nonparametric models and the index-recording wrapper of add_mlcl_constraint are bypassed",
+                              line=b0.lineno, site=site_s)
+        else:
+            ctx.unrecognised("C10-c", site_s, f"batches iterate over {norm_src(it)[:60]}")
     site = "DiscriminativeModel.fit: epochs"
     if len(outer) == 1 and len(inner) == 1 and inner[0] in outer[0].body and len(outer[0].body) == 1:
         upd = [n for n in ast.walk(inner[0]) if isinstance(n, ast.Call) and (call_name(n) or "") == "self._update_weights"]
@@ -311,6 +386,11 @@ def run(pm, ctx):
         tgt = [norm_src(e) for e in lp.target.elts] if isinstance(lp.target, ast.Tuple) else []
         ys = [s for s in lp.body if isinstance(s, ast.Expr) and isinstance(s.value, ast.Yield)]
         st = [s for s in lp.body if isinstance(s, ast.Assign) and norm_src(s.targets[0]) == "disguise_batch.indices"]
+        rebound = [s_ for s_ in ast.walk(lp) if isinstance(s_, (ast.Assign, ast.AugAssign)) and s_ is not lp
+                   and any(isinstance(n, ast.Name) and isinstance(n.ctx, ast.Store) and n.id in tgt for t_ in ([s_.target] if isinstance(s_, ast.AugAssign) else s_.targets) for n in ast.walk(t_))]
+        if rebound:
+            probs.append(f"`{norm_src(rebound[0])}` re-binds what the wrapped generator yielded: the rows handed out (and the recorded ids) no longer match the affinity block, "
+                         f"which stays in the generator's order")
         if len(tgt) != 2 or len(ys) != 1 or len(st) != 1:
             probs.append("loop body is not `record indices; yield`")
         else:
